@@ -248,6 +248,7 @@ class Exec:
         simproc.build_tree(root, self.tree)
         self.docs: dict[str, tuple[bytes | None, int | None]] = {}
         self.links: dict[str, str] = {}
+        self.unconstrained_links = False
         inv = case["inv"]
         named = set(inv.get("argv") or []) | set((inv.get("api") or {}).get("files") or []) | {(inv.get("api") or {}).get("path")}
         for rel in self.tree:
@@ -259,11 +260,16 @@ class Exec:
                 # which legitimately replaces the link: then it is left unconstrained
                 if all(a in self.tree and "d" not in self.tree[a] for a in (inv.get("args") or [])):
                     self.links[rel] = self.tree[rel]["l"]
+                else:
+                    self.unconstrained_links = True
                 continue
             full = os.path.join(root, rel)
             kind = simproc.lstat_kind(full)
             if kind == "dir":
                 continue
+            out_rel0 = inv.get("output")
+            if kind == "link" and out_rel0 and os.path.realpath(full) == os.path.realpath(os.path.join(root, out_rel0)):
+                continue  # a link to the output path: its content legitimately changes with the output
             try:
                 ino = simproc._REAL["lstat"](full).st_ino
             except OSError:
@@ -550,7 +556,11 @@ def _run_case(env: Env, case: dict[str, Any], scratch: str, want_trace: bool) ->
             if any(r.endswith(".partial") for r in simproc.snapshot(ex.root)):
                 self_probe = "re-run with stale .partial present"
                 probes[self_probe] = probes.get(self_probe, 0) + 1
-            if absent_inputs:
+            if ex.unconstrained_links:
+                # a discovered symlink may legitimately have been replaced by a regular file under
+                # the fault; what the re-run then resolves is no longer comparable with the baseline
+                probes["re-run not judged: discoverable symlink in tree"] = probes.get("re-run not judged: discoverable symlink in tree", 0) + 1
+            elif absent_inputs:
                 probes["re-run with target absent (backup window crash)"] = probes.get("re-run with target absent (backup window crash)", 0) + 1
             elif base_exit == 0:
                 bad = None
